@@ -163,6 +163,20 @@ where
     }
 }
 
+#[cfg(reinterpretcat_vrp_verif)]
+impl<C, O, S, K> MinVariation<C, O, S, K>
+where
+    C: HeuristicContext<Objective = O, Solution = S> + Stateful<Key = K>,
+    O: HeuristicObjective<Solution = S>,
+    S: HeuristicSolution,
+    K: Hash + Eq + Clone,
+{
+    /// One step of the criterion with an explicit fitness vector (read-only access for the native replay).
+    pub fn verif_update_and_check(&self, heuristic_ctx: &mut C, fitness: Vec<Float>) -> bool {
+        self.update_and_check(heuristic_ctx, fitness)
+    }
+}
+
 #[cfg(kani)]
 #[path = "/verif/kani/rosomaxa/min_variation_proofs.rs"]
 mod verif_kani_proofs;
